@@ -29,6 +29,9 @@ class Knobs:
         self.no_state_names = False  # code never mentions state names (C17)
         self.avoid_nondet = True     # transitions of one state on one event get distinct priorities
         self.shared_code = 0.06      # an action whose source text is also a plausible guard / condition text
+        self.prio_pool = [0, 0, 0, 1, -1, 2]     # priorities of transitions …
+        self.prio_alt = [-3, -2, -1, 0, 1, 2, 3, 4, 5, 6, 7]   # … and what a colliding one is redrawn from
+        self.chain = 0               # the first `chain` levels are compound states with a single composite child
         self.twins = 0.06            # a transition gets a twin that differs in its guard only (complementary guards)
         self.history_focus = 0.0     # probability, per history state, of adding leave / come-back transitions
         self.__dict__.update(kw)
@@ -161,7 +164,9 @@ class ChartGen:
         def mk(parent, allowed, depth):
             budget[0] -= 1
             name = self.fresh()
-            if budget[0] > 1 and depth < k.max_depth:
+            if depth < k.chain:
+                kind = 'compound'
+            elif budget[0] > 1 and depth < max(k.max_depth, k.chain + 2 if k.chain else 0):
                 kind = r.choice(allowed)
             else:
                 kind = r.choice([a for a in allowed if a in ('basic', 'final')] or ['basic'])
@@ -179,7 +184,12 @@ class ChartGen:
             if kind == 'compound':
                 allowed_ch = ['basic', 'basic', 'compound'] + (['orthogonal'] if r.random() < k.p_orth * 2 else []) \
                     + (['final'] if r.random() < k.p_final * 2 else [])
-                ch = [mk(name, allowed_ch, depth + 1) for _ in range(r.randint(1, 3))]
+                if depth + 1 < k.chain:
+                    ch = [mk(name, ['compound'], depth + 1)]
+                    if r.random() < 0.3:
+                        ch.append(mk(name, ['basic'], k.max_depth + k.chain))
+                else:
+                    ch = [mk(name, allowed_ch, depth + 1) for _ in range(r.randint(1, 3))]
                 st.initial = r.choice(ch)
                 if r.random() < k.p_history:
                     # one history state, sometimes two (a shallow and a deep one side by side)
@@ -223,11 +233,11 @@ class ChartGen:
                 continue
             ev = None if r.random() < k.p_eventless else r.choice(EVENTS)
             guard = self.guard_code(ev is not None) if (r.random() < k.p_guard or ev is None) else None
-            pr = r.choice([0, 0, 0, 1, -1, 2])
+            pr = r.choice(k.prio_pool)
             if k.avoid_nondet:
                 used = self.used_prio.setdefault((src, ev), set())
                 while pr in used:
-                    pr = r.choice([-3, -2, -1, 0, 1, 2, 3, 4, 5, 6, 7])
+                    pr = r.choice(k.prio_alt)
                 used.add(pr)
             t = Transition(src, tgt, event=ev, guard=guard, action=self.action_code(True), priority=pr)
             self.contracts(t)
@@ -288,22 +298,28 @@ class ChartGen:
 
 # ---- statecharts with a past: used, then restructured through the editing API, then used again ----
 MUTABLES = ('class Cell:\n    _vp_cell = True\n    def __init__(self):\n        self.n = 0'
-            '\nbag = []\ncell = Cell()')
+            '\nbag = []\ncell = Cell()\nstock = {\'items\': []}')
+MUTABLES_PLAIN = 'bag = []\nstock = {\'items\': []}'
 
 
-def add_mutables(rnd, sc):
-    """Variables bound to mutable objects that the code changes in place (a list; an instance of a plain class,
-    which is hashable), created by the entry code of the root state, and conditions — true by construction — that
-    compare them with what `__old__` shows.  Implementation only: the model has no such values."""
+def add_mutables(rnd, sc, cell=True):
+    """Variables bound to mutable objects that the code changes in place (a list; a dict holding a list; with
+    `cell`, an instance of a plain class defined by the statechart's own code, which is hashable — and cannot be
+    pickled), created by the entry code of the root state, and conditions — true by construction — that compare
+    them with what `__old__` shows.  Implementation only: the model has no such values."""
     root = sc.state_for(sc.root)
-    root.on_entry = MUTABLES + ('\n' + root.on_entry if root.on_entry else '')
+    root.on_entry = (MUTABLES if cell else MUTABLES_PLAIN) + ('\n' + root.on_entry if root.on_entry else '')
+    posts = ['len(bag) == len(__old__.bag) + 1'] + (['cell.n == __old__.cell.n + 1'] if cell else [])
+    invs = ['len(__old__.bag) <= len(bag)', "len(stock['items']) == len(__old__.stock['items'])"] + \
+        (['__old__.cell.n <= cell.n'] if cell else [])
     for t in sc.transitions:
         if rnd.random() < 0.6:
-            t.action = (t.action or 'pass') + '\nbag.append(x)\ncell.n += 1'
-            t.postconditions.append(rnd.choice(['len(bag) == len(__old__.bag) + 1', 'cell.n == __old__.cell.n + 1']))
+            t.action = (t.action or 'pass') + '\nbag.append(x)\nstock[\'items\'].append(x)' + ('\ncell.n += 1' if cell else '')
+            t.postconditions.append(rnd.choice(posts))
     for o in [sc.state_for(n) for n in sc.states] + list(sc.transitions):
         if o is not root and rnd.random() < 0.4:
-            o.invariants.append(rnd.choice(['len(__old__.bag) <= len(bag)', '__old__.cell.n <= cell.n']))
+            # (`__old__.stock` is a shallow copy: its list is the live one, whatever was appended since)
+            o.invariants.append(rnd.choice(invs))
 
 
 def warm(sc):
